@@ -258,33 +258,55 @@ func ruleEOFPred(c *Ctx) {
 			if !strings.Contains(cc.Value.Type().String(), "ybase.") {
 				continue
 			}
-			c.site(1)
 			pred := cc.Args[0]
-			pf := funcOfValue(pred)
-			pname := "?"
-			if pf != nil {
-				pname = fname(unbound(pf))
+			// the predicate may be a parameter of a shared helper (scanRun(r, name, accept)): judge what each caller passes
+			var preds []ssa.Value
+			if par, ok := pred.(*ssa.Parameter); ok && par.Parent() == fn {
+				idx := -1
+				for i, q := range fn.Params {
+					if q == par {
+						idx = i
+					}
+				}
+				for _, g := range c.srcFuncs() {
+					for _, cj := range callsIn(g) {
+						if callee := staticCallee(cj.Common()); callee != nil && unbound(callee) == fn && idx >= 0 && idx < len(cj.Common().Args) {
+							preds = append(preds, cj.Common().Args[idx])
+						}
+					}
+				}
 			}
-			key := fmt.Sprintf("%s|%s|%s", fname(fn), m, pname)
-			if pf == nil {
-				c.undec(key, c.pos(ci.Pos()), fname(fn), "predicate is not a function value known at this site")
-				continue
+			if len(preds) == 0 {
+				preds = []ssa.Value{pred}
 			}
-			args := []fval{{k: constant.MakeInt64(eof), t: types.Typ[types.Rune]}}
-			target := pf
-			if strings.HasSuffix(pf.Name(), "$bound") {
-				target = unbound(pf)
-				args = append([]fval{top}, args...)
-			}
-			r, err := c.newFolder().foldCall(target, args)
-			switch {
-			case err != nil || r.k == nil || r.k.Kind() != constant.Bool:
-				c.undec(key, c.pos(ci.Pos()), fname(fn), fmt.Sprintf("predicate %s does not fold at EOF: %v", pname, err))
-			case constant.BoolVal(r.k):
-				c.bad(key, c.pos(ci.Pos()), fname(fn), fmt.Sprintf("predicate %s is true for ybase.EOF (%d): at end of input Peek keeps returning EOF and %s never stops — a text that ends inside this token hangs crd", pname, eof, m),
-					fmt.Sprintf("fold: %s(EOF) = true", pname))
-			default:
-				c.ok(key, c.pos(ci.Pos()), fname(fn), pname+"(EOF) = false")
+			for _, pred := range preds {
+				c.site(1)
+				pf := funcOfValue(pred)
+				pname := "?"
+				if pf != nil {
+					pname = fname(unbound(pf))
+				}
+				key := fmt.Sprintf("%s|%s|%s", fname(fn), m, pname)
+				if pf == nil {
+					c.undec(key, c.pos(ci.Pos()), fname(fn), "predicate is not a function value known at this site")
+					continue
+				}
+				args := []fval{{k: constant.MakeInt64(eof), t: types.Typ[types.Rune]}}
+				target := pf
+				if strings.HasSuffix(pf.Name(), "$bound") {
+					target = unbound(pf)
+					args = append([]fval{top}, args...)
+				}
+				r, err := c.newFolder().foldCall(target, args)
+				switch {
+				case err != nil || r.k == nil || r.k.Kind() != constant.Bool:
+					c.undec(key, c.pos(ci.Pos()), fname(fn), fmt.Sprintf("predicate %s does not fold at EOF: %v", pname, err))
+				case constant.BoolVal(r.k):
+					c.bad(key, c.pos(ci.Pos()), fname(fn), fmt.Sprintf("predicate %s is true for ybase.EOF (%d): at end of input Peek keeps returning EOF and %s never stops — a text that ends inside this token hangs crd", pname, eof, m),
+						fmt.Sprintf("fold: %s(EOF) = true", pname))
+				default:
+					c.ok(key, c.pos(ci.Pos()), fname(fn), pname+"(EOF) = false")
+				}
 			}
 		}
 	}
